@@ -34,6 +34,7 @@ type env struct {
 	subs   map[int]*opcua.Subscription // model id -> handle
 	notif  chan *opcua.PublishNotificationData
 	states []string
+	perH   map[uint32]int64 // notifications per client handle
 }
 
 func setupEnv(gates map[string]map[string]bool) (*env, error) {
@@ -47,7 +48,7 @@ func setupEnv(gates map[string]map[string]bool) (*env, error) {
 		return nil, err
 	}
 	e := &env{srv: srv, px: px, ctl: newCtl(), subs: map[int]*opcua.Subscription{},
-		notif: make(chan *opcua.PublishNotificationData, 1024)}
+		notif: make(chan *opcua.PublishNotificationData, 1024), perH: map[uint32]int64{}}
 	e.ctl.gate = gates
 	e.ctl.register("main")
 	e.ctl.install()
@@ -57,7 +58,12 @@ func setupEnv(gates map[string]map[string]bool) (*env, error) {
 				atomic.AddInt64(&e.errs, 1)
 				continue
 			}
-			if _, ok := n.Value.(*ua.DataChangeNotification); ok {
+			if dc, ok := n.Value.(*ua.DataChangeNotification); ok {
+				e.mu.Lock()
+				for _, mi := range dc.MonitoredItems {
+					e.perH[mi.ClientHandle]++
+				}
+				e.mu.Unlock()
 				atomic.AddInt64(&e.notifs, 1)
 				e.ctl.note("app", "notif", map[string]any{"sub": n.SubscriptionID})
 			}
@@ -103,15 +109,32 @@ func (e *env) subscribe(ctx context.Context, mid int) error {
 	e.mu.Lock()
 	e.subs[mid] = sub
 	e.mu.Unlock()
-	req := opcua.NewMonitoredItemCreateRequestWithDefaults(ua.NewStringNodeID(uint16(e.srv.ns), "v1"), ua.AttributeIDValue, uint32(mid))
-	res, err := sub.Monitor(ctx, ua.TimestampsToReturnBoth, req)
-	if err != nil {
-		return fmt.Errorf("monitor: %w", err)
-	}
-	if len(res.Results) != 1 || res.Results[0].StatusCode != ua.StatusOK {
-		return fmt.Errorf("monitor result: %v", res.Results)
+	// two monitored items with different TimestampsToReturn (two groups in recreate_monitoredItems)
+	for k, spec := range []struct {
+		node string
+		ts   ua.TimestampsToReturn
+	}{{"v1", ua.TimestampsToReturnBoth}, {"v2", ua.TimestampsToReturnSource}} {
+		req := opcua.NewMonitoredItemCreateRequestWithDefaults(ua.NewStringNodeID(uint16(e.srv.ns), spec.node), ua.AttributeIDValue, uint32(mid*10+k+1))
+		res, err := sub.Monitor(ctx, spec.ts, req)
+		if err != nil {
+			return fmt.Errorf("monitor: %w", err)
+		}
+		if len(res.Results) != 1 || res.Results[0].StatusCode != ua.StatusOK {
+			return fmt.Errorf("monitor result: %v", res.Results)
+		}
 	}
 	return nil
+}
+
+// handleCounts is a copy of the notifications seen per client handle.
+func (e *env) handleCounts() map[uint32]int64 {
+	e.mu.Lock()
+	defer e.mu.Unlock()
+	m := map[uint32]int64{}
+	for k, v := range e.perH {
+		m[k] = v
+	}
+	return m
 }
 
 func (e *env) handle(mid int) *opcua.Subscription {
@@ -171,4 +194,45 @@ func brief(g string) string {
 		out = out[:7]
 	}
 	return strings.Join(out, " < ")
+}
+
+// loopParkedForGood: the publish loop goroutine sits in the inner (paused) select of
+// monitorSubscriptions, both signal channels are empty and the monitor is idle in its outer
+// select: nothing but a new API call or a new fault can wake it.
+func (e *env) loopParkedForGood() bool {
+	_, _, pc, rc, ok := e.subState(2 * time.Second)
+	if !ok || pc != 0 || rc != 0 {
+		return false
+	}
+	loopPaused, monIdle := false, false
+	for _, g := range clientGoroutines() {
+		lines := strings.Split(g, "\n")
+		if len(lines) < 2 || !strings.Contains(lines[0], "[select") {
+			continue
+		}
+		// top frame decides
+		if strings.HasPrefix(lines[1], "github.com/gopcua/opcua.(*Client).monitorSubscriptions(") {
+			loopPaused = true
+		}
+		if strings.HasPrefix(lines[1], "github.com/gopcua/opcua.(*Client).monitor(") {
+			monIdle = true
+		}
+	}
+	return loopPaused && monIdle
+}
+
+// blockedOnSync reports whether the goroutine running the given function is blocked on a
+// mutex or a channel send (and not waiting for the network).
+func blockedOnSync(gs []string, fn string) bool {
+	for _, g := range gs {
+		if !strings.Contains(g, fn) {
+			continue
+		}
+		h := strings.SplitN(g, "\n", 2)[0]
+		if strings.Contains(h, "sync.RWMutex") || strings.Contains(h, "sync.Mutex") || strings.Contains(h, "chan send") ||
+			(strings.Contains(h, "[select") && (strings.Contains(g, ").pauseSubscriptions(") || strings.Contains(g, ").resumeSubscriptions("))) {
+			return true
+		}
+	}
+	return false
 }
